@@ -22,48 +22,6 @@ import ChibiVerif.Lemmas.InitFuelLemmas
 namespace ChibiVerif.Props.C05
 open ChibiVerif.Init
 
-/-- the zeroed image `gvar_initializer` starts from; its cells are what ND_MEMZERO leaves -/
-theorem zero_image_cells (n : Nat) : (Image.mk (List.replicate n 0) []).cells = zeroCells n := by
-  simp [Image.cells, overlay, zeroCells]
-
-theorem bitOf_zero (n p : Nat) : bitOf (List.replicate n 0) p = false := by
-  simp only [bitOf, List.getD_eq_getElem?_getD, List.getElem?_replicate]
-  split <;> simp
-
-/-- both back ends as folds over the leaves, run from the zero image -/
-theorem both_from_leaves (ty : Ty) (init : Init) (hw : wf ty = true) (hf : fits init ty = true) :
-    ∃ im', gvarInit init ty = .ok im' ∧ autoObject init ty = .ok im'.cells ∧
-      im'.bytes.length = ty.sz ∧ (∀ r ∈ im'.relocs, r.offset + 8 ≤ ty.sz) ∧
-      (∀ p, (∀ l ∈ leaves init ty 0, p < l.bitLo ∨ l.bitHi ≤ p) → bitOf im'.bytes p = false) ∧
-      (∀ r ∈ im'.relocs, ∃ l ∈ leaves init ty 0, l.isReloc = true ∧ r.offset = l.bLo ∧ r.offset + 8 = l.bHi) := by
-  obtain ⟨hwin, hpair⟩ := leaves_wf init ty 0 hw hf
-  let im0 : Image := ⟨List.replicate ty.sz 0, []⟩
-  obtain ⟨im', hs, ha, hlen, hrel, hbits, hnew⟩ := flat_agree ty.sz (leaves init ty 0) im0 (by simp [im0]) (by simp [im0])
-    (fun l hl => by
-      have := hwin l hl
-      exact Leaf.ok_mono (by have := this.2.1; omega) this.2.2)
-    hpair
-    (fun l hl => by
-      cases l with
-      | val => intro r hr; simp [im0] at hr
-      | bf off sz kind bo bw e => exact ⟨by intro r hr; simp [im0] at hr, fun j _ _ => bitOf_zero _ _⟩)
-  refine ⟨im', ?_, ?_, hlen, hrel, ?_, ?_⟩
-  · simp only [gvarInit]
-    rw [writeGvar_leaves init ty _ 0 hf]
-    exact hs
-  · obtain ⟨as, has, hsame⟩ := createLvar_leaves init ty [] hf
-    simp only [autoObject, lvarInit, has]
-    show runAssigns (zeroCells ty.size.toNat) as = _
-    rw [runAssigns_leaves as _ _ hsame, ← zero_image_cells]
-    exact ha
-  · intro p hp
-    rw [hbits p hp]
-    exact bitOf_zero _ _
-  · intro r hr
-    rcases hnew r hr with h | h
-    · simp [im0] at h
-    · exact h
-
 /-- **C05 (static = automatic).**  For every laid-out type and every initializer tree of its shape, the object `write_gvar_data`
     builds in `.data` (bytes plus relocations, as the loader resolves them) and the object `create_lvar_init`'s assignment chain
     builds on the zeroed stack slot (with the stores and the bit-field read-modify-write codegen emits) are the same cells; both
